@@ -337,6 +337,16 @@ class ZopeInterfaceModuleVisitor(extensions.ModuleVisitorExt):
 
 def postProcess(self:model.System) -> None:
 
+    # A class is recognized as an interface from its bases when it is visited.  A base that lives in a module
+    # not processed yet at that time (plain 'import mod' does not process it) could not be looked at: settle
+    # it now that all the bases are resolved, so that the result does not depend on the processing order.
+    for cls in self.objectsOfType(ZopeInterfaceClass):
+        if not cls.isinterface and any(isinstance(b, ZopeInterfaceClass) and b.isinterface 
+                                       for b in cls.mro(include_self=False)):
+            cls.isinterface = True
+            cls.kind = model.DocumentableKind.INTERFACE
+            cls.implementedby_directly = []
+
     for mod in self.objectsOfType(ZopeInterfaceModule):
         _handle_implemented(mod)
 
